@@ -10,7 +10,7 @@ def claim(pid, technique, text, note, design):
 
 claim("C01", "property-based fuzzing of token-grammar byte streams in sandboxed worker processes; oracle = no panic/abort per character (panic-signature classification), proptest + ddmin shrinking",
       "Generated-input exploration: ~250k (quick) / ~6M (thorough) structured streams over all 14 emulation configurations, sizes 1..132 x 1..60 and three buffer shapes, each byte fed through print_char in a worker whose panics, aborts and stack overflows are observed. No proof of absence; coverage of deep DCS/OSC states is measured in the class histogram.",
-      "release-profile semantics (overflow-checks off); numeric parameters capped at 9999 (magnitude is C03); timeouts are inconclusive, not violations; panic signatures come from the current sources", "DESIGN.md 3/C01")
+      "built with overflow checks and debug assertions on (profile 'checked': a panic that only a debug build would hit counts too); numeric parameters capped at 9999 (magnitude is C03); timeouts are inconclusive, not violations; panic signatures come from the current sources", "DESIGN.md 3/C01")
 claim("C03", "metamorphic resource-bound testing: exhaustive control-function table + generated magnitudes, each input measured (CPU of all threads, peak heap via counting allocator) in a sandboxed worker with watchdog; oracle CPU(large) <= max(0.5 s, 50 x CPU(size)), heap <= 256 MiB",
       "Exhaustive over the control-function table (63 finals x 8 intermediates x ~150 parameter lists x 3 screen prefixes = 228k inputs in quick, all 2^(k-1) fillings in thorough), macro/sixel/font/Avatar families, header-byte extremes of 7 golden binary files, plus 300k/6M generated CSI sequences with random magnitudes.",
       "CPU time is the work measure (no iteration counters): loops below ~0.5 s for 2^31-1 are invisible; families with a listed open finding are represented by their witness only (counted as discarded)", "DESIGN.md 3/C03")
@@ -53,7 +53,7 @@ for p in props:
     })
 m = {
  "version": 1,
- "setup_cmd": "cd /verif/harness && CARGO_NET_OFFLINE=true cargo build --release --offline " + " ".join("--bin " + c['property_id'].lower() for c in checks) + " && cargo build --profile ubcheck --offline --bin c10",
+ "setup_cmd": "cd /verif/harness && CARGO_NET_OFFLINE=true cargo build --release --offline " + " ".join("--bin " + c['property_id'].lower() for c in checks) + " && cargo build --profile ubcheck --offline --bin c10 && cargo build --profile checked --offline " + " ".join("--bin " + c['property_id'].lower() for c in checks if c['property_id'] in ('C01', 'C02', 'C20')),
  "hooks": {"guard": "cfg(icy_engine_verif)", "enable": "rustflags = [\"--cfg\", \"icy_engine_verif\"] in /verif/harness/.cargo/config.toml (every ./check build uses it)",
            "baseline_off_cmd": "cd /repo && cargo test --workspace --no-fail-fast --offline",
            "source_commits": hook_commits, "add_only": True},
